@@ -11,7 +11,7 @@ targets against a plain loop.
 """
 import itertools
 
-from glom import glom, Path, T, Spec, PathAccessError, assign, delete, Assign, Delete
+from glom import glom, Path, T, S, Spec, PathAccessError, assign, delete, Assign, Delete
 
 from .. import objs
 from ..engine import R, Sub
@@ -35,6 +35,9 @@ OTHER_PATHS = [  # (spelling, step list); step = '*', '**', ['P', seg], ['.', na
     ('path', ['*']), ('path', [['P', 'a'], '*', ['P', 'a']]), ('path', ['**', ['P', 0]]), ('path', ['**', '*']),
     ('T', ['*']), ('T', ['**']), ('T', ['*', ['[', 'a']]), ('T', ['**', ['.', 'a']]), ('T', ['*', ['[', 0]]),
     ('T', [['[', 'a'], '**']), ('T', ['*', '*']),
+    # the same T expressions rooted at a scope variable: glom(None, S['v']..., scope={'v': target})
+    ('S', ['*']), ('S', ['**']), ('S', ['*', ['[', 'a']]), ('S', ['**', ['.', 'a']]), ('S', ['*', ['[', 0]]), ('S', [['[', 'a'], '**']), ('S', ['*', '*']),
+    ('S', ['*', ['[', 'a'], '*']),
 ]
 
 
@@ -156,7 +159,7 @@ def mk_spec(spelling, steps):
         for s in steps:
             parts.append(T.__star__() if s == '*' else T.__starstar__() if s == '**' else s[1])
         return Path(*parts)
-    t = T
+    t = T if spelling != 'S' else S['v']
     for s in steps:
         if s == '*':
             t = t.__star__()
@@ -188,7 +191,7 @@ def check_paths(target, where, paths):
             want = ('miss', None)
         spec = mk_spec(spelling, steps)
         try:
-            got = ('ok', glom(target, spec))
+            got = ('ok', glom(target, spec) if spelling != 'S' else glom(None, spec, scope={'v': target}))
         except PathAccessError as e:
             got = ('miss', None)
         except Exception as e:
